@@ -406,6 +406,18 @@ impl TraitEnv {
             .map(|scheme| scheme.ty.clone())
     }
 
+    /// Does an inherent impl of a single instantiation of the generic type `constr`
+    /// (`impl Cell[int32] { .. }`) define `method`?
+    pub fn instantiation_impl_defines(&self, constr: &str, method: &TastIdent) -> bool {
+        self.inherent_impls.iter().any(|(key, impl_def)| {
+            matches!(
+                key,
+                InherentImplKey::Exact(tast::Ty::TApp { ty, .. })
+                    if ty.constr_name().as_deref() == Some(constr)
+            ) && impl_def.methods.contains_key(&method.0)
+        })
+    }
+
     pub fn lookup_inherent_method(
         &self,
         receiver_ty: &tast::Ty,
